@@ -48,12 +48,14 @@ pub fn spaces(tier: Tier) -> Vec<Space<'static>> {
             // what the texts denote: non-negative integers are unsigned after parsing, which does not
             // change containment (numbers match by value)
             let exp = ref_contains(&d.vals[i], &d.vals[j]);
-            match guard(|| jsonb::contains(ti, tj)) {
-                Err(p) => acc.vio(&format!("contains-text:{}", panic_class(&p)), || json!({"a": d.texts[i], "b": d.texts[j]})),
-                Ok(o) => {
-                    if o != exp {
-                        let class = if exp { "contains-text:false-but-rules-say-true" } else { "contains-text:true-but-rules-say-false" };
-                        acc.vio(class, || json!({"a": d.texts[i], "b": d.texts[j], "expected": exp, "observed": o}));
+            for (cfg, a, b) in [("text,text", ti, tj), ("text,binary", ti, &d.bytes[j][..]), ("binary,text", &d.bytes[i][..], tj)] {
+                match guard(|| jsonb::contains(a, b)) {
+                    Err(p) => acc.vio(&format!("contains-text:{}", panic_class(&p)), || json!({"cfg": cfg, "a": d.texts[i], "b": d.texts[j]})),
+                    Ok(o) => {
+                        if o != exp {
+                            let class = if exp { "contains-text:false-but-rules-say-true" } else { "contains-text:true-but-rules-say-false" };
+                            acc.vio(class, || json!({"cfg": cfg, "a": d.texts[i], "b": d.texts[j], "expected": exp, "observed": o}));
+                        }
                     }
                 }
             }
